@@ -110,6 +110,8 @@ pub struct SearchRecord {
     /// this record continues a call whose deadline had already passed (timer re-armed
     /// inside the same call): overshoot carried over from the earlier record
     pub inherited_overshoot: Option<u64>,
+    /// nodes the engine entered in this call before it armed the timer
+    pub pre_nodes: u64,
 }
 
 #[derive(Debug, Clone, Default)]
@@ -507,6 +509,7 @@ impl Sim for World {
         let mut st = self.st.borrow_mut();
         let ordinal = st.searches.len() as u64;
         let out_line_at_start = st.out_lines.len();
+        let pre_nodes = st.nodes_in_call;
         let inherited = match st.searches.last() {
             Some(prev) if !st.call_boundary && (prev.deadline_passed_at.is_some() || prev.inherited_overshoot.is_some()) => {
                 Some(prev.nodes_after_deadline)
@@ -543,6 +546,7 @@ impl Sim for World {
             nodes_at_last_read: 0,
             max_poll_gap_seen: 0,
             inherited_overshoot: inherited,
+            pre_nodes,
         });
     }
 
